@@ -23,7 +23,7 @@ META = {
             "program is executed on the real WaitSet and the per-call set of callback ids (resolved with "
             "has_event_from / has_missed_deadline against all live guards), attach results, len() and the size of "
             "the descriptor<->deadline maps are validated by TLC against the property layer.",
-    "note": "Trusted: TLC; the two duration classes (1 ns + 300 us sleep before every call = always expired, 1 h = "
+    "note": "Scripted timed programs add a third duration class for intervals (120 ms) with sleeps of 200 ms outside of and inside callbacks (lower bounds only: a tick that became due while the wait set was processing is owed by the rest of that call or by the next one). Trusted: TLC; the two duration classes (1 ns + 300 us sleep before every call = always expired, 1 h = "
             "never) and the level-triggered pending flag (driver drains inside the callback). A 1 ns deadline whose "
             "listener has an event pending MAY or may not be reported as missed (timing) - nondeterministic in the "
             "spec. Capacity: the epoll capacity (/proc/sys/fs/epoll/max_user_watches) is not reachable, the "
